@@ -64,14 +64,18 @@ pub proof fn lemma_c18_v1(s: Seq<u8>)
 /// have the same verdict; when it ends inside a character both reject terminally
 pub proof fn lemma_c16_entries_agree(s: Seq<u8>)
     requires vstd::utf8::valid_utf8(s),
-        // UTF-8 fact: a prefix of valid UTF-8 is valid exactly when it ends on a character boundary
-        valid_utf8(v1_window(s)) == str_cut_ok(s, v1_window(s).len() as int),
     ensures
         str_cut_ok(s, v1_window(s).len() as int) ==> entry_verdict_bytes(s) == V1BV::Line(entry_verdict_str(s)),
         !str_cut_ok(s, v1_window(s).len() as int) ==>
             (entry_verdict_bytes(s) is InvalidUtf8 || entry_verdict_bytes(s) == V1BV::Line(V1V::Reject(V1K::HeaderTooLong)))
             && (entry_verdict_str(s) matches V1V::Reject(k) && !v1k_incomplete(k)),
 {
+    // a prefix of valid UTF-8 is valid exactly when it ends on a character boundary (proved in the prelude)
+    broadcast use crate::prelude::prelude_str_axioms;
+    lemma_first_index_bounds(s, 13u8);
+    let n = v1_window(s).len() as int;
+    lemma_utf8_prefix_iff_boundary(s, n);
+    assert(valid_utf8(v1_window(s)) == str_cut_ok(s, n)) by { reveal(valid_utf8); };
 }
 
 // [props: C06]
